@@ -279,6 +279,15 @@ func (ex *Exec) jsonMarshal(buf *bytes.Buffer, t types.Type, v Val, caller *fram
 		case string:
 			js, _ := json.Marshal(x)
 			buf.Write(js)
+		case symstr:
+			// symbolic string content: concretise byte by byte (one path per value class is not
+			// possible here because escaping depends on the exact byte)
+			b := make([]byte, len(x))
+			for i, c := range x {
+				b[i] = byte(ex.choose(c))
+			}
+			js, _ := json.Marshal(string(b))
+			buf.Write(js)
 		case Int:
 			if x.sym() {
 				panic(unsupported{"json.Marshal symbolic int"})
